@@ -6,7 +6,7 @@ use crate::svm::{Ix, Store, Tx};
 use crate::world::{self, World};
 use solana_program::{instruction::AccountMeta, pubkey::Pubkey};
 
-#[derive(Clone, Debug, PartialEq, Eq, Hash, PartialOrd, Ord)]
+#[derive(Clone, Debug, PartialEq, Eq, Hash, PartialOrd, Ord, serde::Serialize, serde::Deserialize)]
 pub enum Signer {
     /// the authority of the acting account
     Authority,
@@ -23,7 +23,7 @@ pub enum Signer {
     Stranger,
 }
 
-#[derive(Clone, Debug, PartialEq, Eq, Hash, PartialOrd, Ord)]
+#[derive(Clone, Debug, PartialEq, Eq, Hash, PartialOrd, Ord, serde::Serialize, serde::Deserialize)]
 pub enum Action {
     Deposit { u: usize, b: usize, amt: u64, up_to_limit: Option<bool> },
     Withdraw { u: usize, b: usize, amt: u64, all: bool },
@@ -34,6 +34,15 @@ pub enum Action {
     Bankruptcy { signer: Signer, u: usize, b: usize },
     Accrue { b: usize },
     CollectFees { b: usize },
+    /// risk admin's token-less write-off: repay_all signed by the risk admin
+    TokenlessRepay { u: usize, b: usize },
+    Purge { u: usize, b: usize },
+    ForceTokenlessComplete { b: usize },
+    /// transfer_to_new_account (same authority keeps control; new account key is derived)
+    Transfer { u: usize },
+    CloseAccount { u: usize },
+    CloseBank { b: usize },
+    Freeze { u: usize, on: bool },
     /// time passes; oracles are cranked (their publish time follows the clock)
     Advance { dt: i64 },
     /// time passes and nobody cranks the oracles
@@ -62,6 +71,29 @@ pub fn signer_key(w: &World, sg: &Signer, acting_user: Option<usize>) -> Pubkey 
     }
 }
 
+/// The account currently holding user u's positions: follows the migration chain.
+pub fn cur_account(w: &World, s: &Store, u: usize) -> Pubkey {
+    let mut k = w.users[u].account;
+    for _ in 0..8 {
+        match s.get(&k) {
+            Some(a) if a.owner == marginfi::ID && a.data.len() == 8 + std::mem::size_of::<marginfi_type_crate::types::MarginfiAccount>() => {
+                let m = world::account(s, &k);
+                if m.migrated_to != Pubkey::default() {
+                    k = m.migrated_to;
+                } else {
+                    return k;
+                }
+            }
+            _ => return k,
+        }
+    }
+    k
+}
+
+pub fn next_account_key(old: &Pubkey) -> Pubkey {
+    world::key(&format!("migrated:{}", old))
+}
+
 fn with_mint(w: &World, b: usize, mut rest: Vec<AccountMeta>) -> Vec<AccountMeta> {
     let mut v = w.mint_meta(&w.banks[b]);
     v.append(&mut rest);
@@ -72,37 +104,35 @@ fn with_mint(w: &World, b: usize, mut rest: Vec<AccountMeta>) -> Vec<AccountMeta
 /// substitute the signer; everything else is as the authority would send it).
 pub fn user_ix(w: &World, s: &Store, a: &Action, signer: Pubkey) -> Option<Ix> {
     let g = w.group;
+    let acct = |u: usize| cur_account(w, s, u);
     Some(match a {
         Action::Deposit { u, b, amt, up_to_limit } => {
             let (us, bk) = (&w.users[*u], &w.banks[*b]);
-            ix::deposit(g, us.account, signer, bk.key, us.tokens[&bk.mint], bk.token_program, *amt, *up_to_limit, with_mint(w, *b, vec![]))
+            ix::deposit(g, acct(*u), signer, bk.key, us.tokens[&bk.mint], bk.token_program, *amt, *up_to_limit, with_mint(w, *b, vec![]))
         }
         Action::Repay { u, b, amt, all } => {
             let (us, bk) = (&w.users[*u], &w.banks[*b]);
-            ix::repay(g, us.account, signer, bk.key, us.tokens[&bk.mint], bk.token_program, *amt, if *all { Some(true) } else { None }, with_mint(w, *b, vec![]))
+            ix::repay(g, acct(*u), signer, bk.key, us.tokens[&bk.mint], bk.token_program, *amt, if *all { Some(true) } else { None }, with_mint(w, *b, vec![]))
         }
         Action::Withdraw { u, b, amt, all } => {
             let (us, bk) = (&w.users[*u], &w.banks[*b]);
-            let rem = w.risk_metas(s, &us.account, None, if *all { Some(bk.key) } else { None });
-            ix::withdraw(g, us.account, signer, bk.key, us.tokens[&bk.mint], bk.token_program, *amt, if *all { Some(true) } else { None }, with_mint(w, *b, rem))
+            let rem = w.risk_metas(s, &acct(*u), None, if *all { Some(bk.key) } else { None });
+            ix::withdraw(g, acct(*u), signer, bk.key, us.tokens[&bk.mint], bk.token_program, *amt, if *all { Some(true) } else { None }, with_mint(w, *b, rem))
         }
         Action::Borrow { u, b, amt } => {
             let (us, bk) = (&w.users[*u], &w.banks[*b]);
-            let rem = w.risk_metas(s, &us.account, Some(bk.key), None);
-            ix::borrow(g, us.account, signer, bk.key, us.tokens[&bk.mint], bk.token_program, *amt, with_mint(w, *b, rem))
+            let rem = w.risk_metas(s, &acct(*u), Some(bk.key), None);
+            ix::borrow(g, acct(*u), signer, bk.key, us.tokens[&bk.mint], bk.token_program, *amt, with_mint(w, *b, rem))
         }
-        Action::CloseBalance { u, b } => ix::close_balance(g, w.users[*u].account, signer, w.banks[*b].key),
+        Action::CloseBalance { u, b } => ix::close_balance(g, acct(*u), signer, w.banks[*b].key),
         Action::Liquidate { liquidator, liquidatee, asset, liab, amt } => {
-            let (lq, le) = (&w.users[*liquidator], &w.users[*liquidatee]);
+            let (lq_acct, le_acct) = (acct(*liquidator), acct(*liquidatee));
             let (ab, lb) = (&w.banks[*asset], &w.banks[*liab]);
             // liquidator ends with positions in both banks
-            let mut lq_banks: Vec<Pubkey> = world::account(s, &lq.account)
-                .lending_account
-                .balances
-                .iter()
-                .filter(|x| x.active != 0)
-                .map(|x| x.bank_pk)
-                .collect();
+            let mut lq_banks: Vec<Pubkey> = match world::try_account(s, &lq_acct) {
+                Some(a) => a.lending_account.balances.iter().filter(|x| x.active != 0).map(|x| x.bank_pk).collect(),
+                None => vec![],
+            };
             for k in [ab.key, lb.key] {
                 if !lq_banks.contains(&k) {
                     lq_banks.push(k);
@@ -113,7 +143,7 @@ pub fn user_ix(w: &World, s: &Store, a: &Action, signer: Pubkey) -> Option<Ix> {
             for k in &lq_banks {
                 lq_metas.extend(w.observation(s, k));
             }
-            let le_metas = w.risk_metas(s, &le.account, None, None);
+            let le_metas = w.risk_metas(s, &le_acct, None, None);
             let mut rem = w.mint_meta(lb);
             let ao = w.observation(s, &ab.key);
             let lo = w.observation(s, &lb.key);
@@ -122,20 +152,42 @@ pub fn user_ix(w: &World, s: &Store, a: &Action, signer: Pubkey) -> Option<Ix> {
             let (nq, ne) = (lq_metas.len() as u8, le_metas.len() as u8);
             rem.extend(lq_metas);
             rem.extend(le_metas);
-            ix::liquidate(g, ab.key, lb.key, lq.account, signer, le.account, lb.token_program, *amt, ne, nq, rem)
+            ix::liquidate(g, ab.key, lb.key, lq_acct, signer, le_acct, lb.token_program, *amt, ne, nq, rem)
         }
         Action::Bankruptcy { u, b, .. } => {
-            let (us, bk) = (&w.users[*u], &w.banks[*b]);
-            let rem = w.risk_metas(s, &us.account, None, None);
-            ix::handle_bankruptcy(g, signer, bk.key, us.account, bk.token_program, with_mint(w, *b, rem))
+            let bk = &w.banks[*b];
+            let rem = w.risk_metas(s, &acct(*u), None, None);
+            ix::handle_bankruptcy(g, signer, bk.key, acct(*u), bk.token_program, with_mint(w, *b, rem))
         }
         Action::Accrue { b } => ix::accrue(g, w.banks[*b].key),
         Action::CollectFees { b } => {
             let bk = &w.banks[*b];
             ix::collect_bank_fees(g, bk.key, bk.fee_ata, bk.token_program, w.mint_meta(bk))
         }
+        Action::TokenlessRepay { u, b } => {
+            let (us, bk) = (&w.users[*u], &w.banks[*b]);
+            ix::repay(g, acct(*u), signer, bk.key, us.tokens[&bk.mint], bk.token_program, 0, Some(true), with_mint(w, *b, vec![]))
+        }
+        Action::Purge { u, b } => ix::purge_deleverage_balance(g, acct(*u), signer, w.banks[*b].key),
+        Action::ForceTokenlessComplete { b } => ix::force_tokenless_repay_complete(g, signer, w.banks[*b].key),
+        Action::Transfer { u } => {
+            let old = acct(*u);
+            ix::transfer_to_new_account(g, old, next_account_key(&old), signer, w.payer, w.users[*u].authority, w.fee_wallet)
+        }
+        Action::CloseAccount { u } => ix::account_close(acct(*u), signer, w.payer),
+        Action::CloseBank { b } => ix::close_bank(g, w.banks[*b].key, signer),
+        Action::Freeze { u, on } => ix::set_account_freeze(g, acct(*u), signer, *on),
         Action::Advance { .. } | Action::AdvanceStale { .. } | Action::SetPrice { .. } => return None,
     })
+}
+
+/// every key that must sign the transaction of this action besides the acting signer
+pub fn extra_signers(w: &World, s: &Store, a: &Action) -> Vec<Pubkey> {
+    match a {
+        Action::Transfer { u } => vec![w.payer, next_account_key(&cur_account(w, s, *u))],
+        Action::CloseAccount { .. } => vec![w.payer],
+        _ => vec![],
+    }
 }
 
 pub fn default_signer(w: &World, a: &Action) -> Option<Pubkey> {
@@ -146,6 +198,9 @@ pub fn default_signer(w: &World, a: &Action) -> Option<Pubkey> {
         Action::Liquidate { liquidator, .. } => w.users[*liquidator].authority,
         Action::Bankruptcy { signer, u, .. } => signer_key(w, signer, Some(*u)),
         Action::Accrue { .. } | Action::CollectFees { .. } => w.payer,
+        Action::TokenlessRepay { .. } | Action::Purge { .. } | Action::ForceTokenlessComplete { .. } => w.roles.risk,
+        Action::Transfer { u } | Action::CloseAccount { u } => w.users[*u].authority,
+        Action::CloseBank { .. } | Action::Freeze { .. } => w.roles.admin,
         _ => return None,
     })
 }
@@ -177,7 +232,9 @@ pub fn apply(w: &World, s: &mut Store, a: &Action) -> StepResult {
         _ => {
             let signer = default_signer(w, a).unwrap();
             let i = user_ix(w, s, a, signer).unwrap();
-            let r = crate::svm::process_tx(s, &Tx::one(i, &[signer]));
+            let mut signers = vec![signer];
+            signers.extend(extra_signers(w, s, a));
+            let r = crate::svm::process_tx(s, &Tx::one(i, &signers));
             StepResult { code: r.code(), committed: r.ok() }
         }
     }
